@@ -1,7 +1,7 @@
 """Property -> rule set, with the clause split that the manifest and the evidence repeat."""
 from __future__ import annotations
 
-from .rules import tables, config, luts, state, ownership, contracts, stream, dims, mutate
+from .rules import tables, config, luts, state, ownership, contracts, stream, dims, mutate, ingest, mode, misc
 
 RULES = {
     'H1': tables.rule_H1,
@@ -21,6 +21,9 @@ RULES = {
     'C': stream.rule_C, 'POSW': stream.rule_POSW, 'B1': stream.rule_B1, 'POST': stream.rule_POST, 'RB': stream.rule_RB,
     'I': dims.rule_I, 'B3': dims.rule_B3, 'N2a': dims.rule_N2a,
     'B2': mutate.rule_B2, 'WB': mutate.rule_WB, 'N1': mutate.rule_N1, 'N2': mutate.rule_N2,
+    'E5': ingest.rule_E5, 'CHOKE': ingest.rule_CHOKE, 'LV': ingest.rule_LV,
+    'G2': mode.rule_G2, 'G3': mode.rule_G3, 'E8': mode.rule_E8,
+    'H4': misc.rule_H4, 'ESC': misc.rule_ESC, 'DELEG': misc.rule_DELEG,
     'H5a': luts.rule_H5a, 'H5b': luts.rule_H5b, 'H5c': luts.rule_H5c,
 }
 
@@ -67,11 +70,18 @@ _p('C18', ['H1', 'H3', 'E10'],
                "prefix; both sys.byteorder alias branches of __init__.py are read from the syntax tree.",
    floors={'H1': 60, 'H3': 120})
 
-_p('C17', ['H6'],
-   decided=["tofile writes whole-byte chunks: the chunk size folds to a positive multiple of 8, so only the final "
-            "chunk can be zero-padded (the > 100 MiB boundary no test reaches)"],
+_p('C17', ['H6', 'DELEG', 'L', 'A7', 'E5'],
+   decided=["tofile writes exactly tobytes(), for sizes that span the writer's chunk boundary: the chunk size folds to a "
+            "positive multiple of 8, so only the final chunk can be zero-padded (the > 100 MiB case no test reaches); "
+            "every write is chunk.tobytes()",
+            "tobytes / bytes / tofile of an Array are those of its data; bytes(s) is tobytes()",
+            "the bytes property refuses non-whole-byte lengths (guard dominates the store read)",
+            "tobytes honours the logical length of a file-backed store",
+            "read-back routes (bytes, bitarray, file, BytesIO with offset/length) copy the selected window, agree on "
+            "bounds checks and use absolute positions"],
    declined=["zero padding and losslessness as values for every content/window/size (inside bitarray.tobytes)"],
-   explanation="Constant folding of the chunk-size expression that reaches Bits.cut in Bits.tofile.")
+   explanation="Constant folding of the chunk-size expression that reaches Bits.cut in Bits.tofile; delegation and guard "
+               "dominance checks; ingest feature matrix.")
 
 _p('C09', ['F1', 'F2', 'F3', 'F4', 'G1', 'N4'],
    decided=["results never depend on cache hits, misses or evictions nor on option values in force earlier: every "
@@ -249,8 +259,70 @@ _p('C20', ['M', 'D1', 'N1', 'N2', 'N2a', 'N3', 'N4', 'A5', 'B1', 'POSW', 'E7', '
                "resolution, global-write census.",
    floors={'M': 1000, 'D1': 150, 'N1': 20, 'N2': 20})
 
+_p('C02', ['H4', 'H2', 'H3', 'LV'],
+   decided=["every creation route (constructor keyword, property assignment, token string, Dtype.build, pack, Array "
+            "element) and every reading route (property, property with length, Dtype.parse, unpack, read) dispatches "
+            "through the registry's set/get/read function for the name, so routes cannot disagree",
+            "integer encoders/decoders agree: uint/uintbe reach int2bitstore(.., False) and slice_to_uint, int/intbe the "
+            "signed ones; the le forms reach the same encoder/decoder through exactly one byte reversal; byte-wise "
+            "getters refuse partial bytes; float be/le differ only in the struct prefix",
+            "length tables agree: allowed_lengths of float/bfloat/bool/8-bit floats/endian integers vs the lengths the "
+            "setters and format tables accept; stated length vs built length compared on every route"],
+   declined=["exact canonical encodings and parse(build(v)) == v for all values and lengths: numerical, done inside "
+             "bitarray/struct on run-time values"],
+   explanation="Role-dispatch census over the creation and reading routes (resolved calls through Dtype.set_fn/get_fn/"
+               "read_fn), structural comparison of the integer setters/getters, table agreement.")
+
+_p('C12', ['G1', 'G2', 'G3', 'E8', 'E5', 'E9', 'N1'],
+   decided=["switching the option off restores msb0 behaviour exactly; the switch is complete (both tables assign the "
+            "same 13 slots, variants differ and agree on parameters, nothing else rebinds a slot)",
+            "whole-value interpretations, ==, hash, len, tobytes and the stored bit order of every ingest route are "
+            "computed without mode-dependent position arguments",
+            "every position-taking operation goes through the mirror: no direct reference to an msb0/lsb0 variant "
+            "outside the sanctioned absolute sites; msb0 search positions are never fed to switched accessors",
+            "the two variants of each slot accept the same argument kinds (no operation works in one mode and raises "
+            "AttributeError in the other); step 0 fails with ValueError in both modes"],
+   declined=["the mirror arithmetic itself (offset_slice_indices_lsb0 for negative steps, _findall_lsb0 chunking, count= "
+             "and bytealigned handling, del with a step): integer arithmetic on run-time values; split() under lsb0 "
+             "(not among the operations the property lists; pinned by the project's own test)"],
+   explanation="Structural comparison of the mode tables; call-graph reachability from the whole-value operations to "
+               "position-taking switched slots; census of direct variant references; parameter-dereference comparison "
+               "of slot variants.",
+   floors={'G1': 13, 'E8': 13})
+
+_p('C15', ['CHOKE', 'E5', 'E4', 'LV', 'H3', 'H2', 'B2', 'D2', 'N2a'],
+   decided=["a length that is zero (integers), negative or not allowed for the type raises: Dtype objects are created only "
+            "through get_dtype behind the allowed-length and non-negativity tests; integer/bfloat/float setters reject "
+            "missing, zero or off-table lengths; registry allowed_lengths for floats, bfloat, bool, 8/6/4-bit floats, "
+            "whole-byte endian integers",
+            "a token whose stated length disagrees with its value raises: the comparison exists on all five routes",
+            "an offset or length beyond the supplied bytes / bitarray / file / BytesIO raises (bounds cells of the ingest "
+            "matrix)",
+            "a rejected value neither creates nor changes anything: no raise after the first effect in mutators, Array "
+            "element/slice assignment and extend build before they write; negative unsigned exp-Golomb values rejected"],
+   declined=["the exact range boundaries [0, 2^n) / [-2^(n-1), 2^(n-1)) and that every in-range value succeeds with "
+             "exactly n bits (delegated to bitarray.util.int2ba); the `raise e` of int2bitstore is recorded, not judged"],
+   explanation="Who-may-call and guard-dominance check of the Dtype choke point, sibling agreement of setters and ingest "
+               "routes, validate-before-mutate path rule.")
+
+_p('C19', ['ESC', 'POST', 'H3', 'N2', 'CHOKE'],
+   decided=["pp output contains no terminal escape sequences when options.no_color is set: escape literals occur only in "
+            "Colour.__new__ under `if use_colour`, the else branch assigns empty strings to the same attributes, and "
+            "every Colour is constructed from `not options.no_color`",
+            "repr of a stream carries its pos",
+            "layout tables name only dtypes with a character-width function; the divisions of pp/_pp cannot be by zero; "
+            "negative group lengths are rejected at the Dtype choke point"],
+   declined=["re-parsability of str/repr, truncation marks, digit order, group integrity and line widths of pp: layout "
+             "arithmetic on run-time values"],
+   explanation="Literal census for escape sequences with branch placement, construction-site check of Colour, table and "
+               "division obligations of the pretty printer.")
+
 
 TECHNIQUE = {
+    'C02': 'role-dispatch census of creation/reading routes; structural comparison of integer encoders/decoders; table agreement',
+    'C12': 'switch-table comparison; reachability from whole-value operations to position-taking slots; variant-reference census',
+    'C15': 'who-may-call + guard dominance at the Dtype choke point; sibling agreement of setters and ingest routes; validate-before-mutate',
+    'C19': 'escape-literal census with branch placement; Colour construction sites; pp table/division obligations',
     'C03': 'path walk of mutators for raise-after-effect; bound derivation of write loops; guard facts for helper asserts',
     'C14': 'three-sorted dimension analysis (bits/units/items) of array_.py; atomicity path rule; dtype-writer guard',
     'C20': 'member resolution, raise/assert/division censuses with dominating-guard facts, symtable names, global-write census',
@@ -264,7 +336,7 @@ TECHNIQUE = {
     'C04': 'ownership/provenance analysis of BitStore installs with object-kind dataflow over the resolved call graph; effect summaries',
     'C11': 'exhaustive table validation against an exact format model (constant folding of luts.py literals); partial evaluation of format constructors',
     'C09': 'call-graph reachability from lru_cache functions to option reads; global-write census; switch-table comparison',
-    'C17': 'constant folding of the tofile chunk size; delegation and guard-dominance checks',
+    'C17': 'constant folding of the tofile chunk size; delegation and guard-dominance checks; ingest feature matrix',
     'C18': 'regex character classes (re._parser) vs dict-literal tables vs struct.calcsize; branch interpretation',
 }
 
